@@ -190,7 +190,10 @@ where
 
     /// Place the LoRa physical layer in standby mode
     pub async fn enter_standby(&mut self) -> Result<(), RadioError> {
-        self.radio_kind.set_standby().await
+        self.radio_kind.ensure_ready(self.radio_mode).await?;
+        self.radio_kind.set_standby().await?;
+        self.radio_mode = RadioMode::Standby;
+        Ok(())
     }
 
     /// Apply a new LoRa sync word to the chip.
